@@ -70,7 +70,7 @@ func genUintNBiased(s bitStream, max uint64) (uint64, bool, bool) {
 
 	if int(n) < bitlen {
 		bitlen = int(n)
-	} else if int(n) >= 64-(16-int(m))*4 {
+	} else if int(n) > bitlen && int(n) >= 64-(16-int(m))*4 {
 		bitlen = 65
 	}
 
